@@ -526,12 +526,21 @@ func hook(name string, args ...interface{}) {
 			ds.line = string(args[2].([]byte))
 			ds.inLen, ds.inCap = len(c.In), cap(c.In)
 			st.mu.Unlock()
-			ds.cut() // the endpoint closes the connection ...
+			// the endpoint closes the connection (again and again: it may not have accepted it yet) ...
 			out := "fired"
-			select {
-			case <-ds.closed: // ... and checkEOF has marked it dead
-			case <-time.After(10 * time.Second):
-				out = "close-not-seen"
+			tCut := time.Now()
+		cutting:
+			for {
+				ds.cut()
+				select {
+				case <-ds.closed: // ... and checkEOF has marked it dead
+					break cutting
+				case <-time.After(10 * time.Millisecond):
+					if time.Since(tCut) > 10*time.Second {
+						out = "close-not-seen"
+						break cutting
+					}
+				}
 			}
 			st.mu.Lock()
 			ds.outcome = out
@@ -1260,7 +1269,7 @@ func runC07(s c07Scn, spoolRoot string, prog *hx.Log) []ev {
 				out = "not-fired"
 			}
 			o, line, heldLine, il, ic, trail := st.dsInfo()
-			if out == "" {
+			if out == "" || (o != "" && o != "fired") {
 				out = o
 			}
 			g := ev{"ev": "dsgate", "scn": s.ID, "src": st.ds.src, "connbuf": s.ConnBuf, "outcome": out,
